@@ -138,8 +138,7 @@ def sweepLoaded (p : Profile) (R : Bytes) : String :=
        resS toString (do
          let es ← rd32 T 12
          let sh ← rd32 T 16
-         let m ← umul p W32 es sh
-         if m > v.size then .panic else
+         if es * sh > v.size then .panic else
          let r ← elfOpen T v
          pure r.1)
      | .panic => "P" | .oob => "OOB" | .ub => "UB") ++ ";"
